@@ -1,7 +1,10 @@
 /* C13 native driver: real RandomGenerator vs extracted C (bitwise), and replay
  * of set_seed counterexamples against the real class. */
 #include "RandomGenerator.hpp"
+#include "RestartReader.hpp"
+#include "RestartWriter.hpp"
 #include "cm_replay.hpp"
+#include <unistd.h>
 #include <cmath>
 
 extern "C" {
@@ -92,6 +95,44 @@ static int replay(const char *path) {
         if (!same) { std::printf("REPRODUCED (native boundary search): generator(42) after %d draws re-seeded with 512 differs from a fresh generator(512) (carry %a vs %a, luxury %lu vs %lu)\n", draws, used._carry, fresh._carry, (unsigned long)used._pr, (unsigned long)fresh._pr); bad = 1; }
       }
     }
+    if (!bad) std::printf("NOT-REPRODUCED\n");
+    return bad;
+  }
+  if (in.job == "restart_roundtrip") {
+    int bad = 0;
+    char name[64];
+    std::snprintf(name, sizeof name, "/var/tmp/cm_c13_restart_%d.dump", (int)getpid());
+    /* the verifier's state: indices and carry from the counterexample, lattice words of a seeded generator */
+    for (int pass = 0; pass < 2 && !bad; ++pass) {
+      for (int n = 0; n <= (pass ? 320 : 0) && !bad; ++n) {
+        RandomGenerator a(42);
+        if (pass == 0) {
+          if (!in.has("in_ir") || !in.has("in_ir_old")) break;
+          a._ir = in.u64("in_ir");
+          a._ir_old = in.u64("in_ir_old");
+          a._jr = (a._ir_old + 7) % 12;
+          a._carry = (in.has("in_carry_set") && in.u64("in_carry_set")) ? 1.0 / 281474976710656.0 : 0.;
+        } else {
+          for (int d = 0; d < n; ++d) a.get_uniform_random_double();
+        }
+        { RestartWriter w(name); a.write_restart_file(w); }
+        RestartReader r(name);
+        RandomGenerator b(r);
+        bool same = cm_bits(a._carry) == cm_bits(b._carry) && a._ir == b._ir && a._jr == b._jr && a._ir_old == b._ir_old && a._pr == b._pr;
+        for (int i = 0; i < 12; ++i) same = same && cm_bits(a._xdbl[i]) == cm_bits(b._xdbl[i]);
+        bool samedraws = true;
+        for (int d = 0; d < 40; ++d) samedraws = samedraws && cm_bits(a.get_uniform_random_double()) == cm_bits(b.get_uniform_random_double());
+        if (!same || !samedraws) {
+          if (pass == 0)
+            std::printf("REPRODUCED (verifier counterexample): generator with read index %lu, block start %lu saved and restored: state %s, next 40 draws %s\n", (unsigned long)in.u64("in_ir"),
+                        (unsigned long)in.u64("in_ir_old"), same ? "equal" : "differs", samedraws ? "equal" : "differ");
+          else
+            std::printf("REPRODUCED (native boundary search): generator(42) saved after %d draws and restored: state %s, next 40 draws %s\n", n, same ? "equal" : "differs", samedraws ? "equal" : "differ");
+          bad = 1;
+        }
+      }
+    }
+    std::remove(name);
     if (!bad) std::printf("NOT-REPRODUCED\n");
     return bad;
   }
